@@ -379,9 +379,16 @@ func genTokens(rt *rapid.T, fset *token.FileSet, f *token.File) []tok {
 			toks = append(toks, tok{rapid.SampledFrom([]string{"a", "b1", "$x", "_y", "var", "return", "function", "in", "new", "0", "12", "x$"}).Draw(rt, "id"), 'i'})
 		case 2, 3:
 			p := rapid.SampledFrom([]string{"+", "-", "=", "(", ")", "{", "}", ";", ",", ".", "<", ">", "!", "&&", "||", "?", ":", "===", "[", "]", "/", "*", "--", "-"}).Draw(rt, "p")
-			// never build a comment opener out of separate tokens
-			if len(toks) > 0 && strings.HasSuffix(toks[len(toks)-1].text, "/") && (p == "*" || p == "/") {
-				p = ";"
+			// never build a comment opener out of separate tokens ("a / *b" is not JavaScript);
+			// whitespace and hints in between do not separate them after minification
+			for k := len(toks) - 1; k >= 0; k-- {
+				if toks[k].kind == 'w' || toks[k].kind == 'h' || toks[k].kind == 'c' {
+					continue
+				}
+				if strings.HasSuffix(toks[k].text, "/") && (p == "*" || p == "/") {
+					p = ";"
+				}
+				break
 			}
 			toks = append(toks, tok{p, 'p'})
 		case 4:
